@@ -148,14 +148,15 @@ def f18_pattern(spec, mods):
         if m["op"] == "ins" and m["k"] == nins[m["b"]] and deleted.get(m["b"], 0) == nins[m["b"]] and nins[m["b"]] > 0:
             return True
     # the same situation one level down: a patch that cannot be re-joined with what follows it (it ends
-    # in / contains a control transfer or a label) is inserted at offset k, the tail [k, end) behind it -
+    # in / contains a control transfer or a label) is inserted at offset k (or replaces the bytes up to k), the tail [k, end) behind it -
     # now a block of its own - is deleted wholly, and another modification waits at the block end
     splitting = ("jmp", "jcc", "call", "ret", "ijmp", "icall", "lab", "callplt", "syscall")
     for d in mods:
         if d["op"] == "del" and d["k"] + d.get("n", 0) == nins[d["b"]] and d.get("n", 0) > 0:
             at_end = any(m["op"] in ("ins", "rep") and m["b"] == d["b"] and m["k"] == nins[d["b"]] for m in mods)
             barrier = any(
-                m["op"] == "ins" and m["b"] == d["b"] and m["k"] == d["k"] and isinstance(m.get("p"), list) and any(t[0] in splitting for t in m["p"])
+                m["op"] in ("ins", "rep") and m["b"] == d["b"] and m["k"] + (m.get("n", 0) if m["op"] == "rep" else 0) == d["k"]
+                and isinstance(m.get("p"), list) and any(t[0] in splitting for t in m["p"])
                 for m in mods
             )
             if at_end and barrier:
